@@ -31,13 +31,13 @@ static int gz2_coprime(gz2_t a, gz2_t b) {   /* a,b >= 0, not both 0; decided by
   if (a == 0) return b == 1;
   if (b == 0) return a == 1;
   if (a == 1 || b == 1) return 1;
-  gz_t x = nondet_gz(), y = nondet_gz();
+  gz_t x = GZ_NONDET(), y = GZ_NONDET();
   __CPROVER_assume(x >= -(gz_t)b && x <= (gz_t)b && y >= -(gz_t)a && y <= (gz_t)a);
   return (gz2_t)x * a + (gz2_t)y * b == 1;
 }
 /* "not coprime" witnessed by a common divisor: used to REFUTE canonicity (a nondet divisor > 1 dividing both) */
 static int gz2_common_divisor_exists(gz2_t a, gz2_t b) {
-  gz_t g = nondet_gz();
+  gz_t g = GZ_NONDET();
   if (a < 0) a = -a;
   if (g < 2 || (gz2_t)g > b) return 0;
   return (a % g == 0) && (b % g == 0);
@@ -188,7 +188,7 @@ void vfr_make(fr_m *x, uint8_t kinds) {
     x->f0 = (k == 0) ? 1 : (k == 1 ? 3 : 7);
     if (k == 3) { gz_put(&x->f3->f0, n); gz_put(&x->f3->f1, d); }
     if (k == 1) {   /* allocated but invalid mpq part: arbitrary contents */
-      gz_t jn = nondet_gz(), jd = nondet_gz();
+      gz_t jn = GZ_NONDET(), jd = GZ_NONDET();
       __CPROVER_assume(jn > -((gz_t)1 << FR_MPQ_BITS) && jn < ((gz_t)1 << FR_MPQ_BITS) && jd >= 1 && jd < ((gz_t)1 << FR_MPQ_BITS));
       gz_put(&x->f3->f0, jn); gz_put(&x->f3->f1, jd);
     }
@@ -198,15 +198,15 @@ void vfr_make(fr_m *x, uint8_t kinds) {
     __CPROVER_assume(d >= 1 && d < ((gz2_t)1 << FR_MPQ_BITS));
     __CPROVER_assume(!fr_fits_word(n, d));
     __CPROVER_assume(gz2_coprime(n < 0 ? -n : n, d));
-    x->f1 = nondet_u32() & FR_WMASK; x->f2 = nondet_u32() & FR_WMASK;    /* stale word part */
+    x->f1 = (ir2c_in_u32 = nondet_u32()) & FR_WMASK; x->f2 = (ir2c_in_u32 = nondet_u32()) & FR_WMASK;    /* stale word part */
     x->f0 = 6;
     gz_put(&x->f3->f0, n); gz_put(&x->f3->f1, d);
   }
 }
 uint8_t vfr_state(fr_m *x) { return x->f0; }
 /* replacement for FastRational::mpqPool::alloc/release (the pool itself is the subject of C24 only) */
-mpq_m *vfr_pool_alloc(void *pool) { (void)pool; mpq_m *q = (mpq_m *)malloc(sizeof(mpq_m)); __CPROVER_assume(q != 0); __gmpq_init(q); return q; }
-void vfr_pool_release(void *pool, mpq_m *q) { (void)pool; (void)q; }
+mpq_m *vfr_pool_alloc(struct S_class_opensmt_FastRational_mpqPool *pool) { (void)pool; mpq_m *q = (mpq_m *)malloc(sizeof(mpq_m)); __CPROVER_assume(q != 0); __gmpq_init(q); return q; }
+void vfr_pool_release(struct S_class_opensmt_FastRational_mpqPool *pool, mpq_m *q) { (void)pool; (void)q; }
 /* canonical FastRational holding the (scaled: 2W-bit, else 64-bit) signed integer x: word form iff it fits */
 void vfr_make_int(fr_m *x, uint64_t v) {
   gz2_t n = gz_sx64(v);
@@ -218,3 +218,28 @@ void vfr_make_int(fr_m *x, uint64_t v) {
   gz_put(&q->f0, n); gz_put(&q->f1, 1);
   x->f3 = q; x->f0 = 6; x->f1 = 0; x->f2 = 1;
 }
+/* ---- oracles for unary / integer operations (snapshots in slots) */
+uint8_t vfr_is_neg_of(fr_m *r, uint8_t s) { fr_val_t a = fr_slot[s % FR_SLOTS], v = fr_value(r); return v.n == -a.n && v.d == a.d; }
+uint8_t vfr_is_inverse_of(fr_m *r, uint8_t s) {
+  fr_val_t a = fr_slot[s % FR_SLOTS], v = fr_value(r);
+  return a.n > 0 ? (v.n == a.d && v.d == a.n) : (v.n == -a.d && v.d == -a.n);
+}
+uint8_t vfr_is_num_of(fr_m *r, uint8_t s) { fr_val_t a = fr_slot[s % FR_SLOTS], v = fr_value(r); return v.n == a.n && v.d == 1; }
+uint8_t vfr_is_den_of(fr_m *r, uint8_t s) { fr_val_t a = fr_slot[s % FR_SLOTS], v = fr_value(r); return v.n == a.d && v.d == 1; }
+uint8_t vfr_slot_sign(uint8_t s) { fr_val_t a = fr_slot[s % FR_SLOTS]; return a.n < 0 ? 2 : (a.n > 0 ? 1 : 0); }   /* 2 = negative */
+uint8_t vfr_slots_equal(uint8_t sa, uint8_t sb) { return fr_slot[sa % FR_SLOTS].n == fr_slot[sb % FR_SLOTS].n && fr_slot[sa % FR_SLOTS].d == fr_slot[sb % FR_SLOTS].d; }
+uint8_t vfr_slot_divides(uint8_t sd, uint8_t sn) { fr_val_t d = fr_slot[sd % FR_SLOTS], n = fr_slot[sn % FR_SLOTS]; return d.n != 0 && n.n % d.n == 0; }
+uint8_t vfr_is_exact_quotient(fr_m *r, uint8_t sn, uint8_t sd) { fr_val_t n = fr_slot[sn % FR_SLOTS], d = fr_slot[sd % FR_SLOTS], v = fr_value(r); return v.d == 1 && v.n * d.n == n.n; }
+/* r equals the canonical form of n/d given as raw word fields (constructor FastRational(word, uword)) */
+uint8_t vfr_is_canonical_of_raw(fr_m *r, uint32_t n, uint32_t d) {
+  fr_m t; t.f1 = n & FR_WMASK; t.f2 = d & FR_WMASK;
+  gz2_t rn = fr_word_num(&t), rd = fr_word_den(&t); fr_val_t v = fr_value(r);
+  return v.d > 0 && v.n * rd == rn * v.d;
+}
+/* symbolic well-formed INTEGER (den == 1) in any representation */
+void vfr_make_integer(fr_m *x, uint8_t kinds) {
+  vfr_make(x, kinds);
+  fr_val_t v = fr_value(x);
+  __CPROVER_assume(v.d == 1);
+}
+uint8_t vfr_is_uint(fr_m *r, uint32_t v) { fr_val_t x = fr_value(r); return x.d == 1 && x.n == (gz2_t)((uint64_t)v & FR_WMASK); }
